@@ -115,6 +115,9 @@ EV_QUICK = (
 EV_SINGLE = ("wb_new_ok", "wb_new_fail", "wb_same_ok", "wb_new_one_ok", "w_new_ok", "w_new_ok_pf", "w_same_ok", "w_new_fail", "rb_fail", "tick_ok", "el_rec")
 # C24, third exploration: a batch whose first register is unmodified fails; the outage ends with a write of a register outside the batch
 EV_OUTSIDE = ("wb_new_ok", "wb_second_fail", "wb_second_ok", "w3_new_ok", "w_new_ok", "rb_fail", "tick_ok")
+# C24, fourth exploration: the write of a register outside the batch fails, the flush after the next batch fails too, then only
+# unchanged batches follow
+EV_OUTSIDE2 = ("w3_new_fail", "wb_new_ok_pf", "wb_same_ok", "wb_new_ok", "w3_new_ok", "tick_ok")
 # C23, second exploration: a register that is read on its own next to the batch of the other registers
 EV_READS = ("rb_ok", "rb_fail", "r3_ok", "r3_fail", "r_ok", "el_rec", "tick_ok")
 EV_THOROUGH = EV_QUICK + ("r_ok", "r_fail", "w_new_ok", "w_new_fail", "w_same_ok", "el_small", "wb_half_ok", "w_new_partial_fail")
